@@ -394,21 +394,23 @@ def checkACO (pre impl : List String) : Option (List String × Bool) := do
   let (ipolls, _ilog, _) ← splitImpl impl
   let acts ← s.racts.mapM actOf
   let q0 := content.drop ri
-  let free := n - content.length
   let ch := if choices == "-" then [] else choices.toList
-  -- model: no compaction; one reader poll per future poll
-  let rec go (r : ARd) (ch : List Char) (acc : List String) (fuel : Nat) : List String :=
+  -- the model is `cofPoll` (FBV/Model/ReadFrame.lean), the function C14.cof_* are about: no compaction, one reader
+  -- poll per future poll; at a Pending the harness either polls the same future again or drops it and calls anew
+  let b0 : AB := { size := n, ri := ri, q := q0 }
+  let pos (r : ARd) := s.data.length - r.rem.length
+  let rec go (b : AB) (r : ARd) (ch : List Char) (acc : List String) (fuel : Nat) : List String :=
     if fuel = 0 then acc.reverse else
-    if free = 0 then (s!"err0@{hex q0}@{s.data.length - r.rem.length}" :: acc).reverse else
-    match r.read free with
-    | (.pending, r') =>
+    match cofPoll b r with
+    | (b', r', .pending) =>
       match ch with
-      | 'c' :: ch' => go r' ch' (s!"cancel@{hex q0}@{s.data.length - r'.rem.length}" :: acc) (fuel - 1)
-      | _ :: ch' => go r' ch' ("pending" :: acc) (fuel - 1)
-      | [] => go r' [] ("pending" :: acc) (fuel - 1)
-    | (.err e, r') => (s!"err{e}@{hex q0}@{s.data.length - r'.rem.length}" :: acc).reverse
-    | (.data c, r') => (s!"ok{c.length}@{hex (q0 ++ c)}@{s.data.length - r'.rem.length}" :: acc).reverse
-  let mpolls := go { rem := s.data, acts := acts } ch [] 1000
+      | 'c' :: ch' => go b' r' ch' (s!"cancel@{hex b'.q}@{pos r'}" :: acc) (fuel - 1)
+      | _ :: ch' => go b' r' ch' ("pending" :: acc) (fuel - 1)
+      | [] => go b' r' [] ("pending" :: acc) (fuel - 1)
+    | (b', r', .invalid) => (s!"err0@{hex b'.q}@{pos r'}" :: acc).reverse
+    | (b', r', .ioErr e) => (s!"err{e}@{hex b'.q}@{pos r'}" :: acc).reverse
+    | (b', r', .ok k) => (s!"ok{k}@{hex b'.q}@{pos r'}" :: acc).reverse
+  let mpolls := go b0 { rem := s.data, acts := acts } ch [] 1000
   let tag := if ch.contains 'c' then "C15" else "C14"
   let mut v : List String := []
   if mpolls != ipolls then v := "DRIFT" :: s!"DIFF {tag}" :: s!"UNSAT {tag}" :: v
